@@ -180,6 +180,14 @@ def cmd_run(prop, tier, runs=None, budget=None, quiet=False):
         else:
             exit_code = 2
             lines.append('HARNESS-ERROR nondeterministic replays: ' + nondet_line)
+    if exit_code == 2 and batch.harness and reproduced_violations and \
+            all(h['signature'] == 'worker-died' for h in batch.harness):
+        # a worker was killed (bus error / segmentation fault inside the library or NumPy) in a
+        # batch that also produced a violation reproduced in a fresh interpreter: the violation
+        # stands on its replay file; the death is reported next to it, not instead of it
+        exit_code = 1
+        lines.append('  note: a worker process died during this batch (see above); the '
+                     'violation(s) reported here were reproduced independently of it')
     if len(by_sig) > 8:
         lines.append('  (+%d further distinct signatures not minimised)' % (len(by_sig) - 8))
         n_viol += len(by_sig) - 8
